@@ -675,6 +675,14 @@ class MethodCtx:
 
     # -- expression statements -----------------------------------------
     def expr_stmt(self, e, rest, env, mode):
+        if isinstance(e, ast.Call) and isinstance(e.func, ast.Attribute) and isinstance(e.func.value, ast.Name) \
+                and e.func.value.id == "logger" and e.func.attr in ("debug", "info", "warning", "error"):
+            # a logging call is a no-op for the state, provided its arguments neither call anything nor index anything
+            for a in list(e.args) + [k.value for k in e.keywords]:
+                for n in ast.walk(a):
+                    if isinstance(n, (ast.Call, ast.Subscript, ast.Await, ast.Yield, ast.NamedExpr)):
+                        _u(e, "logging call whose arguments are not plain reads")
+            return self.block(rest, env, mode)
         if isinstance(e, ast.Call) and isinstance(e.func, ast.Attribute) and ast.unparse(e.func) == "heapq.heappush" \
                 and len(e.args) == 2 and not e.keywords:
             h = e.args[0]
